@@ -1,19 +1,19 @@
 #!/bin/bash
 # like try_mutant.sh but on a scratch worktree (VERIF_REPO), so that /repo stays untouched: try_mutant2.sh <mutant dir> [tier]
-D="$1"; TIER="${2:-quick}"; WT=/tmp/wt/eval
+D="$1"; TIER="${2:-quick}"; WT=${EVAL_WT:-/tmp/wt/eval}
 P=$(/venv/bin/python -c "import json,sys; print(json.load(open('$D/meta.json'))['property'])")
 [ -d $WT ] || git -C /repo worktree add -q --detach $WT HEAD
 cd $WT && git checkout -q --detach $(git -C /repo rev-parse HEAD) && git checkout -q -- . 
 for f in data/c_hydrodiy_data.c stat/c_hydrodiy_stat.c gis/c_hydrodiy_gis.c; do cp -n /repo/src/hydrodiy/$f src/hydrodiy/$f; done
 git apply "$D/patch.diff" || { echo "$D: patch does not apply"; exit 9; }
 cd /verif
-mkdir -p /tmp/eval_out
+mkdir -p ${EVAL_OUT:-/tmp/eval_out}
 START=$(date +%s)
-VERIF_REPO=$WT VF_EVIDENCE_DIR=/tmp/eval_out VF_REPLAY_DIR=/tmp/eval_out/replays timeout 1500 ./vf check $P --tier $TIER > /tmp/eval_out/log_$$.txt 2>&1
+VERIF_REPO=$WT VF_EVIDENCE_DIR=${EVAL_OUT:-/tmp/eval_out} VF_REPLAY_DIR=${EVAL_OUT:-/tmp/eval_out}/replays timeout 1500 ./vf check $P --tier $TIER > ${EVAL_OUT:-/tmp/eval_out}/log_$$.txt 2>&1
 RC=$?
 END=$(date +%s)
 git -C $WT checkout -q -- .
-echo "$D property=$P exit=$RC time=$((END-START))s viol=$(grep -c '^VIOLATION' /tmp/eval_out/log_$$.txt)"
-grep -m1 -A1 "^VIOLATION" /tmp/eval_out/log_$$.txt | tail -1 | cut -c1-260
-grep -m2 "HARNESS-ERROR\|TRANSLATOR" /tmp/eval_out/log_$$.txt | cut -c1-300
-rm -f /tmp/eval_out/log_$$.txt
+echo "$D property=$P exit=$RC time=$((END-START))s viol=$(grep -c '^VIOLATION' ${EVAL_OUT:-/tmp/eval_out}/log_$$.txt)"
+grep -m1 -A1 "^VIOLATION" ${EVAL_OUT:-/tmp/eval_out}/log_$$.txt | tail -1 | cut -c1-260
+grep -m2 "HARNESS-ERROR\|TRANSLATOR" ${EVAL_OUT:-/tmp/eval_out}/log_$$.txt | cut -c1-300
+rm -f ${EVAL_OUT:-/tmp/eval_out}/log_$$.txt
